@@ -315,6 +315,29 @@ theorem nan_row (s : Sol) (g : QMat) (i : Nat) (hi : i < g.rows) (hu : isStable 
   intro j hj
   refine ⟨((nan_pattern s g i j hi hj).1).2 (Or.inl hu), fun hi' hj' => ((nan_pattern s g j i hj' hi').1).2 (Or.inr hu)⟩
 
+/-- **One loading is enough, whatever the others are.** A transition variable with a loading above the tolerance on a
+single unit-root column is NaN in every cell of its row — also when its loadings on several unit-root columns offset each
+other (sum to zero), e.g. the spread of two independent random walks: the classification takes `|·|` column by column,
+never of a sum. -/
+theorem nan_of_single_loading (s : Sol) (g : QMat) (i j : Nat) (hi : i < g.rows) (hna : i < s.na)
+    (hj : j < s.nu) (hl : s.tol < absQ (s.Ua.get i j)) :
+    isStable s i = false ∧ ∀ c, c < g.cols → (fillNaN s g).get i c = none := by
+  have hu : isStable s i = false := by
+    unfold isStable
+    rw [if_pos hna, (loadsOnUnitRoot_iff s.Ua s.nu s.tol i).2 ⟨j, hj, hl⟩]
+    rfl
+  exact ⟨hu, fun c hc => (nan_row s g i hi hu c hc).1⟩
+
+/-- the same for a measurement variable (rows `na …` of the joint vector, loadings `Za`) -/
+theorem nan_of_single_loading_measurement (s : Sol) (g : QMat) (i j : Nat) (hi : s.na + i < g.rows)
+    (hj : j < s.nu) (hl : s.tol < absQ (s.Za.get i j)) :
+    isStable s (s.na + i) = false ∧ ∀ c, c < g.cols → (fillNaN s g).get (s.na + i) c = none := by
+  have hu : isStable s (s.na + i) = false := by
+    unfold isStable
+    rw [if_neg (by omega), Nat.add_sub_cancel_left, (loadsOnUnitRoot_iff s.Za s.nu s.tol i).2 ⟨j, hj, hl⟩]
+    rfl
+  exact ⟨hu, fun c hc => (nan_row s g (s.na + i) hi hu c hc).1⟩
+
 /-- the zero-shift selection only picks cells: `select` never creates or removes a NaN -/
 theorem select_get (g : CMat) (sel : List Nat) (i j : Nat) (hi : i < sel.length) (hj : j < sel.length) :
     (select g sel).get i j = g.get (sel.getD i 0) (sel.getD j 0) := by
